@@ -756,6 +756,92 @@ func (c *Ctx) ruleTypeIdent() {
 				}
 			}
 		})
+		// every rendered name that takes part in the comparison must be one of the known renderings: the object name
+		// of a named type (with its package path beside it), the name of a basic type, or the path-qualified
+		// Type.String() of the fallback (the recorded finding). Any other rendering - in particular one that
+		// qualifies packages by *name* - identifies more distinct types with each other than the recorded finding says.
+		if !usesGoTypes {
+			nStores, nBad := 0, 0
+			allInstrs(fn, func(b *ssa.BasicBlock, ins ssa.Instruction) {
+				st, ok := ins.(*ssa.Store)
+				if !ok {
+					return
+				}
+				fa, ok := st.Addr.(*ssa.FieldAddr)
+				if !ok {
+					return
+				}
+				switch deref(fa.X.Type()).Underlying().(*types.Struct).Field(fa.Field).Name() {
+				case "TypeName":
+				case "TypePackage":
+					// the package beside an object name is its full path (or "" for universe / unnamed types)
+					if !P.RootsAllDeep(st.Val, func(r ssa.Value) bool {
+						if cs, ok := r.(*ssa.Const); ok {
+							return cs.Value != nil && cs.Value.ExactString() == `""`
+						}
+						return P.CallTo(r, "(*go/types.Package).Path") != nil
+					}) {
+						nBad++
+						c.fail("TYPE-IDENT", "implements."+name+"#rendering", P.Pos(st.Pos()), "the compared TypePackage is "+short(P.DescDeep(st.Val))+", not (*types.Package).Path(): named types of distinct packages are identified")
+					}
+					return
+				default:
+					return
+				}
+				nStores++
+				bad := ""
+				if !P.RootsAllDeep(st.Val, func(r ssa.Value) bool {
+					call, ok := r.(*ssa.Call)
+					if !ok {
+						bad = P.Desc(r)
+						return false
+					}
+					if call.Call.IsInvoke() && call.Call.Method.Name() == "String" && typeStr(call.Call.Value.Type()) == "go/types.Type" {
+						render = true
+						return true
+					}
+					switch P.calleeName(call.Common()) {
+					case "(*go/types.TypeName).Name", "(*go/types.object).Name", "(*go/types.Basic).Name":
+						return true
+					case "go/types.TypeString":
+						if c.pathQualifier(call.Call.Args[1]) {
+							render = true
+							return true
+						}
+						bad = "types.TypeString with a qualifier that is neither nil nor (*types.Package).Path"
+						return false
+					}
+					bad = P.Desc(r)
+					return false
+				}) {
+					nBad++
+					c.fail("TYPE-IDENT", "implements."+name+"#rendering", P.Pos(st.Pos()), "the compared TypeName is rendered by "+short(bad)+": not the object name of a named/basic type and not the path-qualified Type.String(); distinct types of same-named packages are identified")
+				}
+			})
+			if nStores == 0 {
+				c.fail("TYPE-IDENT", "implements."+name+"#rendering", P.Pos(fn.Pos()), "no store to a TypeName field found (rule instance lost)")
+			} else if nBad == 0 {
+				c.ok("TYPE-IDENT", "implements."+name+"#rendering", P.Pos(fn.Pos()), fmt.Sprintf("%d TypeName renderings: object name / basic name / path-qualified String()", nStores))
+			}
+		}
+		// (2b) a named type is rendered by its object name alone: the type arguments of an instantiated generic
+		// type are dropped, Box[int] and Box[string] are identified (missed IMPL03)
+		if !usesGoTypes {
+			objName, typeArgs := false, false
+			allInstrs(fn, func(b *ssa.BasicBlock, ins ssa.Instruction) {
+				if call, ok := ins.(*ssa.Call); ok {
+					switch P.calleeName(call.Common()) {
+					case "(*go/types.Named).Obj":
+						objName = true
+					case "(*go/types.Named).TypeArgs":
+						typeArgs = true
+					}
+				}
+			})
+			if objName && !typeArgs {
+				c.fail("TYPE-IDENT", "implements."+name+"#type-args-dropped", P.Pos(fn.Pos()), "a named type is identified by (package path, object name) only: instantiations of one generic type with different type arguments are treated as the same type (missed IMPL03)")
+			}
+		}
 		if render && !usesGoTypes {
 			c.fail("TYPE-IDENT", "implements."+name+"#string-fallback", P.Pos(fn.Pos()), "types that are neither pointer, named nor basic are identified by Type.String(), which is not canonical")
 		}
@@ -937,4 +1023,38 @@ func (c *Ctx) complitFieldFrom(fn *ssa.Function, typ, field, suffix string) bool
 		}
 	})
 	return ok && n > 0
+}
+
+// pathQualifier: the types.Qualifier argument renders packages by their full path - nil, or a function all of
+// whose results are (*types.Package).Path() of its parameter.
+func (c *Ctx) pathQualifier(q ssa.Value) bool {
+	P := c.P
+	return P.RootsAllDeep(q, func(r ssa.Value) bool {
+		if cs, ok := r.(*ssa.Const); ok && cs.Value == nil {
+			return true
+		}
+		var fn *ssa.Function
+		switch x := r.(type) {
+		case *ssa.Function:
+			fn = x
+		case *ssa.MakeClosure:
+			fn, _ = x.Fn.(*ssa.Function)
+		}
+		if fn == nil || len(fn.Params) != 1 || len(fn.Blocks) == 0 {
+			return false
+		}
+		n, ok := 0, true
+		allInstrs(fn, func(b *ssa.BasicBlock, ins ssa.Instruction) {
+			if ret, isRet := ins.(*ssa.Return); isRet && len(ret.Results) == 1 {
+				n++
+				if !P.RootsAllDeep(ret.Results[0], func(v ssa.Value) bool {
+					call := P.CallTo(v, "(*go/types.Package).Path")
+					return call != nil && P.RootsAllDeep(call.Call.Args[0], func(a ssa.Value) bool { return a == fn.Params[0] })
+				}) {
+					ok = false
+				}
+			}
+		})
+		return ok && n > 0
+	})
 }
